@@ -73,3 +73,12 @@ Props/C11.vos Props/C11.vok Props/C11.required_vos: Props/C11.v Base/Tactics.vos
 Props/C20.vo Props/C20.glob Props/C20.v.beautified Props/C20.required_vo: Props/C20.v Base/Tactics.vo Base/Prelude.vo Base/Fixed.vo Base/FMap.vo Model/Types.vo Model/Env.vo Model/Registry.vo Model/Cw20.vo Model/Reward.vo Model/Dispatcher.vo Model/Hub.vo Model/Exec.vo Proofs/ExecP.vo Proofs/HubFrame.vo Proofs/HubAdmin.vo Proofs/DispatcherP.vo Proofs/Auth.vo Proofs/Params.vo
 Props/C20.vio: Props/C20.v Base/Tactics.vio Base/Prelude.vio Base/Fixed.vio Base/FMap.vio Model/Types.vio Model/Env.vio Model/Registry.vio Model/Cw20.vio Model/Reward.vio Model/Dispatcher.vio Model/Hub.vio Model/Exec.vio Proofs/ExecP.vio Proofs/HubFrame.vio Proofs/HubAdmin.vio Proofs/DispatcherP.vio Proofs/Auth.vio Proofs/Params.vio
 Props/C20.vos Props/C20.vok Props/C20.required_vos: Props/C20.v Base/Tactics.vos Base/Prelude.vos Base/Fixed.vos Base/FMap.vos Model/Types.vos Model/Env.vos Model/Registry.vos Model/Cw20.vos Model/Reward.vos Model/Dispatcher.vos Model/Hub.vos Model/Exec.vos Proofs/ExecP.vos Proofs/HubFrame.vos Proofs/HubAdmin.vos Proofs/DispatcherP.vos Proofs/Auth.vos Proofs/Params.vos
+Proofs/Cw20P.vo Proofs/Cw20P.glob Proofs/Cw20P.v.beautified Proofs/Cw20P.required_vo: Proofs/Cw20P.v Base/Tactics.vo Base/Prelude.vo Base/Fixed.vo Base/FMap.vo Model/Types.vo Model/Env.vo Model/Cw20.vo Model/Exec.vo Proofs/ExecP.vo
+Proofs/Cw20P.vio: Proofs/Cw20P.v Base/Tactics.vio Base/Prelude.vio Base/Fixed.vio Base/FMap.vio Model/Types.vio Model/Env.vio Model/Cw20.vio Model/Exec.vio Proofs/ExecP.vio
+Proofs/Cw20P.vos Proofs/Cw20P.vok Proofs/Cw20P.required_vos: Proofs/Cw20P.v Base/Tactics.vos Base/Prelude.vos Base/Fixed.vos Base/FMap.vos Model/Types.vos Model/Env.vos Model/Cw20.vos Model/Exec.vos Proofs/ExecP.vos
+Proofs/TokenWorld.vo Proofs/TokenWorld.glob Proofs/TokenWorld.v.beautified Proofs/TokenWorld.required_vo: Proofs/TokenWorld.v Base/Tactics.vo Base/Prelude.vo Base/Fixed.vo Base/FMap.vo Model/Types.vo Model/Env.vo Model/Registry.vo Model/Cw20.vo Model/Reward.vo Model/Dispatcher.vo Model/Hub.vo Model/Exec.vo Proofs/ExecP.vo Proofs/Cw20P.vo
+Proofs/TokenWorld.vio: Proofs/TokenWorld.v Base/Tactics.vio Base/Prelude.vio Base/Fixed.vio Base/FMap.vio Model/Types.vio Model/Env.vio Model/Registry.vio Model/Cw20.vio Model/Reward.vio Model/Dispatcher.vio Model/Hub.vio Model/Exec.vio Proofs/ExecP.vio Proofs/Cw20P.vio
+Proofs/TokenWorld.vos Proofs/TokenWorld.vok Proofs/TokenWorld.required_vos: Proofs/TokenWorld.v Base/Tactics.vos Base/Prelude.vos Base/Fixed.vos Base/FMap.vos Model/Types.vos Model/Env.vos Model/Registry.vos Model/Cw20.vos Model/Reward.vos Model/Dispatcher.vos Model/Hub.vos Model/Exec.vos Proofs/ExecP.vos Proofs/Cw20P.vos
+Props/C18.vo Props/C18.glob Props/C18.v.beautified Props/C18.required_vo: Props/C18.v Base/Tactics.vo Base/Prelude.vo Base/Fixed.vo Base/FMap.vo Model/Types.vo Model/Env.vo Model/Registry.vo Model/Cw20.vo Model/Reward.vo Model/Dispatcher.vo Model/Hub.vo Model/Exec.vo Proofs/ExecP.vo Proofs/Cw20P.vo Proofs/TokenWorld.vo Proofs/Auth.vo
+Props/C18.vio: Props/C18.v Base/Tactics.vio Base/Prelude.vio Base/Fixed.vio Base/FMap.vio Model/Types.vio Model/Env.vio Model/Registry.vio Model/Cw20.vio Model/Reward.vio Model/Dispatcher.vio Model/Hub.vio Model/Exec.vio Proofs/ExecP.vio Proofs/Cw20P.vio Proofs/TokenWorld.vio Proofs/Auth.vio
+Props/C18.vos Props/C18.vok Props/C18.required_vos: Props/C18.v Base/Tactics.vos Base/Prelude.vos Base/Fixed.vos Base/FMap.vos Model/Types.vos Model/Env.vos Model/Registry.vos Model/Cw20.vos Model/Reward.vos Model/Dispatcher.vos Model/Hub.vos Model/Exec.vos Proofs/ExecP.vos Proofs/Cw20P.vos Proofs/TokenWorld.vos Proofs/Auth.vos
